@@ -1158,9 +1158,19 @@ struct Explorer {
           for (auto& x : s.spec.reads) in_graph.insert(x);
         }
       }
-      // paths known from the deps log stay nodes of the graph as inputs of their statement
+      // what a live statement is known to read through its recorded dependencies (deps log record or
+      // depfile on disk) is an input of that statement: part of the graph, and by now a source file
       lp::DepsLogModel dl;
       if (auto* f = before.Get(kDeps)) dl = lp::ParseDepsLog(f->data);
+      for (auto& s : v->stmts) {
+        if (s.phony) continue;
+        if (!s.deps.empty()) {
+          auto it = dl.deps.find(s.id);
+          if (it != dl.deps.end()) for (auto& x : it->second.deps) in_graph.insert(x);
+        } else if (!s.depfile.empty() && before.Get(s.depfile)) {
+          for (auto& x : s.spec.hidden) in_graph.insert(x);
+        }
+      }
       for (auto& kv : bl.entries) if (!in_graph.count(kv.first)) scope.insert(kv.first);
     }
     set<string> expected, removed;
@@ -1185,6 +1195,7 @@ struct Explorer {
       }
       x.facts.set("referenced_only_as_validation", only_validation && !any_ref && !is_out && !is_phony);
       x.facts.set("dry_run", op.tool_dry);
+      x.facts.set("named_only_by_a_depfile_on_disk_of_a_live_statement", DepfileNamed(*v, before, p));
       out->push_back(x);
     }
     if (!op.tool_dry) {
@@ -1216,6 +1227,10 @@ struct Explorer {
           Violation x; x.prop = "C18"; x.clause = "dry-run-listing";
           x.detail = "dry-run clean lists a different set than the files in scope";
           x.facts.set("tool", op.tool_kind);
+          bool only_depfile_named = true;
+          for (auto& q : listed) if (!expected.count(q) && !DepfileNamed(*v, before, q)) only_depfile_named = false;
+          for (auto& q : expected) if (!listed.count(q)) only_depfile_named = false;
+          x.facts.set("named_only_by_a_depfile_on_disk_of_a_live_statement", only_depfile_named);
           out->push_back(x);
         }
       }
@@ -1323,6 +1338,15 @@ struct Explorer {
                js::Dump(StartedList(r2)) + (WorldKey(after) == WorldKey(d2) ? "" : "; the resulting trees / logs differ");
     x.facts.set("tool", op.tool ? op.tool_kind : string("build"));
     out->push_back(x);
+  }
+
+  /// Is `p` named as a dependency by the depfile (on disk, no deps log) of a statement of the manifest?
+  static bool DepfileNamed(const Variant& v, const vfs::Disk& d, const string& p) {
+    for (auto& s : v.stmts) {
+      if (s.phony || !s.deps.empty() || s.depfile.empty() || !d.Get(s.depfile)) continue;
+      if (find(s.spec.hidden.begin(), s.spec.hidden.end(), p) != s.spec.hidden.end()) return true;
+    }
+    return false;
   }
 
   /// C08 at process level: what ninja (any invocation) does to an existing build log.
@@ -1474,7 +1498,7 @@ struct Explorer {
       RunResult r1 = RunNinja(&d1, cfg, {}), r2 = RunNinja(&d2, cfg, {});
       st.invocations += 2;
       if (r1.exit_code != r2.exit_code || js::Dump(StartedList(r1)) != js::Dump(StartedList(r2)) ||
-          WorldKey(d1, true) != WorldKey(d2, true)) {
+          WorldKey(d1) != WorldKey(d2)) {
         Violation x; x.prop = "C19"; x.clause = "next-build-differs";
         x.detail = "the build after '" + op.label + "' differs from the build without it: started " +
                    js::Dump(StartedList(r2)) + " vs " + js::Dump(StartedList(r1));
